@@ -70,12 +70,18 @@ def fold_closures(inv):
     return out
 
 
-def fold_table(table):
+def fold_table(table, prog=None):
     out = {}
     for (fid, cls, kind), (cnt, why) in table.items():
-        k = (root_fn(fid), cls, kind)
-        if k in out:
-            out[k] = (out[k][0] + cnt, out[k][1] + "; " + why)
-        else:
-            out[k] = (cnt, why)
+        fids = [root_fn(fid)]
+        if prog is not None and fids[0] not in prog.bodies and fids[0] in prog.gone:
+            # the function was inlined into its former callers and deleted: its triaged sites are theirs now
+            fids = [root_fn(c) for c in prog.gone[fids[0]]]
+            why = why + " (triaged in `%s`, since inlined here)" % fid.split("::")[-1]
+        for f in fids:
+            k = (f, cls, kind)
+            if k in out:
+                out[k] = (out[k][0] + cnt, out[k][1] + "; " + why)
+            else:
+                out[k] = (cnt, why)
     return out
